@@ -317,6 +317,49 @@ def check_wiring(ctx):
         ctx.check(ok_l, R2, l.key + ":from_dict", f"returns {back}(data)", f"{l.qualname} does not rebuild the object with {back}", l)
 
 
+R5 = "C11-D5 zero-is-a-value"
+
+
+def check_zero_is_a_value(ctx):
+    """A coefficient / value of 0 is legitimate data: code that parses or restores an optional number must
+    tell "absent" from "zero" with ``is None``, not by truthiness (0, 0.0 and 0j are falsy)."""
+    from ..lints import optional_number_truthiness, self_check_optional_number
+
+    repo = ctx.repo
+    if not self_check_optional_number():
+        ctx.undecided(R5, "lint:self-check", "the embedded positive example of the optional-number lint was not detected")
+        return
+    mods = ["operators._pauli_operators", "operators._io", "utils", "measurements.expectation_values", "measurements.parities", "wavefunction"]
+    for m in mods:
+        mod = repo.module(m)
+        for fi in mod.functions.values():
+            hits = optional_number_truthiness(repo, fi)
+            has_optional = hits or any(True for _ in [0] if _has_optional_number(repo, fi))
+            if not has_optional:
+                continue
+            ctx.analysed(fi)
+            if hits:
+                for nm, node, why in hits:
+                    ctx.violation(R5, f"{fi.key}:truthiness:{nm}", f"{fi.qualname}: `{short(node)}` tests the optional number `{nm}` ({why}) by truthiness: a parsed or stored 0 / 0.0 / 0j is treated as absent, so a zero coefficient printed as text does not come back as zero", f"{mod.relpath}:{node.lineno}")
+            else:
+                ctx.ok(R5, f"{fi.key}:optional-numbers", "optional numbers are told apart from 0 with `is None` tests", fi)
+
+
+def _has_optional_number(repo, fi) -> bool:
+    from ..lints import _optional_numeric, _return_slots
+
+    a = fi.node.args
+    if any(_optional_numeric(p.annotation) for p in list(a.posonlyargs) + list(a.args) + list(a.kwonlyargs)):
+        return True
+    for n in body_walk(fi.node):
+        if isinstance(n, ast.Assign) and isinstance(n.value, ast.Call):
+            targets, _ = repo.resolve_call(fi, n.value)
+            for t in targets[:1]:
+                if any(_optional_numeric(s_) for s_ in _return_slots(t)):
+                    return True
+    return False
+
+
 def run(ctx):
     for name, w, r, root, allow in PAIRS:
         check_pair(ctx, R1, name, w, r, root, allow_unread=allow)
@@ -327,6 +370,8 @@ def run(ctx):
     check_wiring(ctx)
     check_grammar(ctx)
     check_slots(ctx)
+    check_zero_is_a_value(ctx)
+    ctx.floor("C11-D5", 4)
     ctx.floor("C11-D1 ", 60)
     ctx.floor("C11-D1g", 5)
     ctx.floor("C11-D2", 24)
